@@ -29,6 +29,7 @@ type LoopSpec struct {
 	Index   string // name for the implicit index of a range loop
 	Visited string // name for the visited set of a map range loop
 	List    string // name for the evaluated range expression
+	Frame   string // "entry": the automatic loop frame protects the objects that existed at function entry (default: at loop entry)
 	Invs    []*Clause
 	Line    int
 }
@@ -129,6 +130,7 @@ type ContractFile struct {
 	Globals   []*GhostGlobal
 	Dropped   []string
 	Opaque    []string
+	GlobalInvs []*Clause // facts about package-level variables, assumed at the entry of every function of the package
 	Contracts []*Contract
 	Text      string // concatenated //@ text (for field name scan and hashing)
 	SortSpecs map[string]string
@@ -136,7 +138,7 @@ type ContractFile struct {
 
 var clauseKeywords = map[string]bool{
 	"import": true, "const": true, "spec": true, "axiom": true, "lemma": true, "induction": true, "uses": true,
-	"ghost": true, "dropped": true, "opaque": true, "func": true, "extern": true, "interface": true, "params": true,
+	"ghost": true, "dropped": true, "opaque": true, "globalinv": true, "func": true, "extern": true, "interface": true, "params": true,
 	"results": true, "requires": true, "profile": true, "ensures": true, "modifies": true,
 	"trusted": true, "loop": true, "invariant": true, "at": true, "pure": true, "noalloc": true,
 	"profiles": true, "free": true, "sameas": true, "sortspec": true, "inline": true, "lemmas": true,
@@ -280,6 +282,12 @@ func readContractFile(path string, pkgPath string) (*ContractFile, error) {
 			cf.Dropped = append(cf.Dropped, strings.Fields(rc.text)...)
 		case "opaque":
 			cf.Opaque = append(cf.Opaque, strings.Fields(rc.text)...)
+		case "globalinv":
+			c, err := mkClause(rc, rc.text)
+			if err != nil {
+				return nil, err
+			}
+			cf.GlobalInvs = append(cf.GlobalInvs, c)
 		case "sortspec":
 			// sortspec TypeName: key expression over element "e" (ascending, strict weak order by key)
 			k := strings.Index(rc.text, ":")
@@ -524,6 +532,8 @@ func readContractFile(path string, pkgPath string) (*ContractFile, error) {
 						ls.Visited = g[i+1]
 					case "list":
 						ls.List = g[i+1]
+					case "frame":
+						ls.Frame = g[i+1]
 					default:
 						return nil, fail(rc, "unknown loop option %q", g[i])
 					}
